@@ -3,19 +3,76 @@ package main
 import (
 	"crypto/hmac"
 	"crypto/sha512"
+
+	"golang.org/x/crypto/curve25519"
+	"golang.org/x/crypto/ed25519"
+	"golang.org/x/crypto/nacl/box"
+	"golang.org/x/crypto/nacl/secretbox"
 )
 
 // cryptoOracle answers the model's callbacks with the same primitive
 // libraries saltpack links against. Arguments and result are hex.
 func cryptoOracle(prim string, args []string) string {
+	a := make([][]byte, len(args))
+	for i := range args {
+		a[i] = unhx(args[i])
+	}
 	switch prim {
 	case "sha512":
-		h := sha512.Sum512(unhx(args[0]))
+		h := sha512.Sum512(a[0])
 		return hx(h[:])
 	case "hmac512":
-		m := hmac.New(sha512.New, unhx(args[0]))
-		m.Write(unhx(args[1]))
+		m := hmac.New(sha512.New, a[0])
+		m.Write(a[1])
 		return hx(m.Sum(nil))
+	case "sb_seal":
+		var k [32]byte
+		var n [24]byte
+		if len(a[0]) != 32 || len(a[1]) != 24 {
+			fatal("sb_seal: bad key/nonce length %d/%d", len(a[0]), len(a[1]))
+		}
+		copy(k[:], a[0])
+		copy(n[:], a[1])
+		return hx(secretbox.Seal(nil, a[2], &n, &k))
+	case "sb_open":
+		var k [32]byte
+		var n [24]byte
+		if len(a[0]) != 32 || len(a[1]) != 24 {
+			return "!"
+		}
+		copy(k[:], a[0])
+		copy(n[:], a[1])
+		out, ok := secretbox.Open(nil, a[2], &n, &k)
+		if !ok {
+			return "!"
+		}
+		return hx(out)
+	case "dh_pub":
+		var s, p [32]byte
+		copy(s[:], a[0])
+		curve25519.ScalarBaseMult(&p, &s)
+		return hx(p[:])
+	case "dh_shared":
+		var s, p, k [32]byte
+		copy(s[:], a[0])
+		copy(p[:], a[1])
+		box.Precompute(&k, &p, &s)
+		return hx(k[:])
+	case "ed_pub":
+		if len(a[0]) != 64 {
+			fatal("ed_pub: secret key length %d", len(a[0]))
+		}
+		return hx(a[0][32:])
+	case "ed_sign":
+		return hx(ed25519.Sign(ed25519.PrivateKey(a[0]), a[1]))
+	case "ed_verify":
+		if len(a[0]) != 32 {
+			return "0"
+		}
+		if ed25519.Verify(ed25519.PublicKey(a[0]), a[1], a[2]) {
+			return "1"
+		}
+		return "0"
 	}
 	fatal("unknown oracle primitive %s", prim)
 	return ""
